@@ -29,7 +29,7 @@ PROXY_HEADER_SETS = [
 ]
 
 
-PROXY_VERIFY = ["default", "assert-match", "assert-other", "assert-notproxy", "assert-false", "pin-right", "pin-wrong", "ctx-trusting", "ctx-empty"]
+PROXY_VERIFY = ["default", "assert-match", "assert-other", "assert-notproxy", "assert-false", "pin-right", "pin-wrong", "ctx-trusting", "ctx-empty", "shared-ctx-assert", "shared-ctx-pin", "shared-ctx-assert", "shared-ctx-pin"]  # shared-ctx-*: ONE SSLContext object for the proxy leg and the origin
 
 
 def proxy_leg_ok(case: dict[str, typing.Any]) -> bool:
@@ -38,7 +38,7 @@ def proxy_leg_ok(case: dict[str, typing.Any]) -> bool:
     if case["proxy_cert"] == "untrusted" or pv == "ctx-empty":
         return False
     san = "proxy.test" if case["proxy_cert"] == "ok" else "notproxy.test"
-    if pv == "pin-right" or pv == "assert-false":
+    if pv in ("pin-right", "assert-false", "shared-ctx-pin"):
         return True
     if pv == "pin-wrong" or pv == "assert-other":
         return False
@@ -144,6 +144,16 @@ def run_case(rec: Recorder, case: dict[str, typing.Any], certs: tlsnet.Certs) ->
                 kw["proxy_assert_fingerprint"] = hashlib.sha256(der).hexdigest()
             elif pv == "pin-wrong":
                 kw["proxy_assert_fingerprint"] = hashlib.sha256(der + b"x").hexdigest()
+            elif pv in ("shared-ctx-assert", "shared-ctx-pin"):
+                del kw["ca_certs"]
+                shared = create_urllib3_context()
+                shared.load_verify_locations(certs.ca_file)
+                kw["proxy_ssl_context"] = shared
+                kw["ssl_context"] = shared
+                if pv == "shared-ctx-assert":
+                    kw["proxy_assert_hostname"] = "proxy.test"
+                else:
+                    kw["proxy_assert_fingerprint"] = hashlib.sha256(der).hexdigest()
             elif pv in ("ctx-trusting", "ctx-empty"):
                 # CAs come from the contexts only: one for the proxy leg, one for the origin
                 del kw["ca_certs"]
